@@ -318,17 +318,18 @@ func c17rand(g *G, n, max int) []int {
 }
 
 func genC17Partition(g *G) {
-	// exhaustive: every slice length ≤ 10 (12 thorough) with every keep/drop pattern
+	// exhaustive: every slice length ≤ 10 (12 thorough) with every keep/drop pattern (g.Each: the exhaustive
+	// parts of the C17 generators are dealt to the generator shards, not repeated in each)
 	maxN := g.Scale(10, 12)
 	for n := 0; n <= maxN; n++ {
 		for mask := 0; mask < 1<<n; mask++ {
-			g.Case([]string{c17reset(c17iota(n), mask%3, (mask/3)%3), fmt.Sprintf("partition %d", mask)})
+			g.Each([]string{c17reset(c17iota(n), mask%3, (mask/3)%3), fmt.Sprintf("partition %d", mask)})
 		}
 	}
 	// the empty slice in every layout
 	for off := 0; off < 2; off++ {
 		for spare := 0; spare < 3; spare++ {
-			g.Case([]string{c17reset(nil, off, spare), "partition 5"})
+			g.Each([]string{c17reset(nil, off, spare), "partition 5"})
 		}
 	}
 	// random: duplicates, longer slices, repeated partitions of the rearranged slice
@@ -355,7 +356,7 @@ func genC17Rotate(g *G) {
 	maxN := g.Scale(14, 24)
 	for n := 0; n <= maxN; n++ {
 		for k := -n - 1; k <= n+1; k++ {
-			g.Case([]string{c17reset(c17iota(n), (n+k+1)%2, (n+k+1)%3), fmt.Sprintf("rotate %d", k)})
+			g.Each([]string{c17reset(c17iota(n), (n+k+1)%2, (n+k+1)%3), fmt.Sprintf("rotate %d", k)})
 		}
 	}
 	for c := 0; c < g.Scale(400, 10000); c++ {
@@ -384,7 +385,7 @@ func genC17Sub(op string) func(g *G) {
 			for _, spare := range []int{0, 3} {
 				for _, off := range []int{0, 2} {
 					for n := -2; n <= l+3; n++ {
-						g.Case([]string{c17reset(c17iota(l), off, spare), fmt.Sprintf("%s %d", op, n)})
+						g.Each([]string{c17reset(c17iota(l), off, spare), fmt.Sprintf("%s %d", op, n)})
 					}
 				}
 			}
@@ -407,14 +408,14 @@ func genC17Index(g *G) {
 			for _, off := range []int{0, 1} {
 				rs := c17reset(c17iota(l), off, spare)
 				for n := -2; n <= l+2; n++ {
-					g.Case([]string{rs, fmt.Sprintf("head %d", n)})
-					g.Case([]string{rs, fmt.Sprintf("tail %d", n)})
+					g.Each([]string{rs, fmt.Sprintf("head %d", n)})
+					g.Each([]string{rs, fmt.Sprintf("tail %d", n)})
 				}
 				ops := []string{rs}
 				for i := -l - 2; i <= l+1; i++ {
 					ops = append(ops, fmt.Sprintf("at %d", i), fmt.Sprintf("ptrat %d", i))
 				}
-				g.Case(ops)
+				g.Each(ops)
 			}
 		}
 	}
